@@ -8,7 +8,9 @@ Open Scope Z_scope.
 
 (* op encoding: [0] begin  [1] begin_nested  [2,v] insert v  [3] conn.commit  [4] conn.rollback
    [5] conn.close  [6,k] h_k.commit  [7,k] h_k.rollback  [8,k] h_k.close  [9,k] h_k.__enter__
-   [10,k,e] h_k.__exit__ (e=1: with an exception) *)
+   [10,k,e] h_k.__exit__ (e=1: with an exception)
+   [11,m] raising `begin` listener: 0 remove, 1 raises once, 2 raises always
+   [12,b] the next DBAPI rollback() reports an error *)
 Definition as_op (t : tree) : option op :=
   match t with
   | L [I 0] => Some OBegin
@@ -23,6 +25,8 @@ Definition as_op (t : tree) : option op :=
   | L [I 9; k] => option_map TEnter (as_nat k)
   | L [I 10; k; e] =>
       match as_nat k, as_bool e with Some k', Some e' => Some (TExit k' e') | _, _ => None end
+  | L [I 11; m] => option_map FBegin (as_N m)
+  | L [I 12; b] => option_map FRollback (as_bool b)
   | _ => None
   end.
 
@@ -43,6 +47,7 @@ Definition of_res (r : res) : tree :=
   | Raise PendingRollbackError => I 2
   | Raise ResourceClosedError => I 3
   | Raise OperationalError => I 4
+  | Raise ListenerError => I 8
   | OutOfFuel => I 7
   end.
 
